@@ -1784,6 +1784,28 @@ class Interp:
         if isinstance(n.op, ast.Add) and lu.op in ("list", "tuple") and \
                 ru.op == lu.op:
             return T(lu.op, *(lu.args + ru.args))
+        if isinstance(n.op, ast.BitOr):
+            # union of two literal sets (frozenset({...}) | CONSTANT_SET)
+            def members(t):
+                for _ in range(3):
+                    if t.op == "call" and tm.callee_name(t) in (
+                            "builtins.frozenset", "builtins.set") and \
+                            len(t.args[1]) == 1 and not t.args[2]:
+                        t = self.unname(t.args[1][0])
+                    else:
+                        break
+                if t.op in ("set", "tuple", "list") and not any(
+                        x.op == "star" for x in t.args):
+                    return list(t.args)
+                return None
+            ml, mr = members(lu), members(ru)
+            if ml is not None and mr is not None and (
+                    lu.op in ("set", "call") or ru.op in ("set", "call")):
+                out = []
+                for x in ml + mr:
+                    if not any(x is y for y in out):
+                        out.append(x)
+                return T("set", *out)
         if isinstance(n.op, ast.Mult):
             for a, b in ((lu, ru), (ru, lu)):
                 if a.op in ("list", "tuple") and tm.is_const(b) and \
@@ -1840,6 +1862,26 @@ class Interp:
         parts = []
         for op, comp in zip(n.ops, n.comparators):
             right = self.eval(comp, frame, live)
+            ru_ = self.unname(right)
+            owner = None
+            if isinstance(op, (ast.In, ast.NotIn)) and \
+                    tm.is_const(self.unname(left)) and isinstance(
+                        tm.const_val(self.unname(left)), str):
+                if ru_.op == "attr" and ru_.args[1] == "__dict__":
+                    owner = ru_.args[0]
+                elif tm.callee_name(ru_) == "builtins.vars" and \
+                        len(ru_.args[1]) == 1:
+                    owner = ru_.args[1][0]
+            if owner is not None:
+                # "name" in obj.__dict__ / vars(obj): the instance has the
+                # attribute — the hasattr(obj, "name") of instance state
+                h = self.do_call(tm.glob("builtins.hasattr"), [owner, left],
+                                 [], n, frame, live)
+                parts.append(h if isinstance(op, ast.In) else
+                             T("unop", "Not", h) if not tm.is_const(h)
+                             else const(not tm.const_val(h)))
+                left = right
+                continue
             parts.append(self.compare(type(op).__name__, left, right))
             left = right
         if len(parts) == 1:
